@@ -28,6 +28,33 @@ add("C02",
     "optimality is asserted only where that table satisfies the split inequality.",
     "DESIGN.md section 4, C02")
 
+add("C01",
+    "Hypothesis PBT: definitional recomputation (long double) with enclosure error model; batch-independence and parameter-validation facets",
+    "Generated data matrices (exact/generic/structured/constant/duplicated columns), both parameter modes, generated fixed "
+    "parameters and interval batches; each returned row is compared with the cost computed directly from X[s:e] under a stated "
+    "rounding-error enclosure; singular slices must raise the documented error; rows must not depend on the batch; invalid "
+    "fixed parameters must raise ValueError. Bounded exploration (n<=120, p<=4).",
+    "Trusted: NumPy long double arithmetic, the error model B=32(N+1)^2 eps M^2 of DESIGN.md 3.4; ill-conditioned multivariate "
+    "slices (cond>1e10) accept either outcome.",
+    "DESIGN.md section 4, C01")
+add("C03",
+    "Hypothesis PBT: generated table/built-in savings and penalties vs un-pruned CAPA dynamic-programme reference model",
+    "Generated integer table savings (|sum u|, max(0,sum u), sub-additive closure) with CAPA and with MVCAPA under user penalty "
+    "callables (betas zero/equal/arbitrary), and built-in savings with all penalty families on structured data; every cumulative "
+    "score, the re-evaluated reported anomalies, interval well-formedness and ignore_point_anomalies are compared with an un-pruned "
+    "DP that is self-tested against exhaustive enumeration. Bounded exploration (n<=14 tables, n<=100 data).",
+    "Trusted: oracle in oracles/reference.py; built-in penalty functions are inputs here (pinned by C15); optimality asserted only "
+    "where the evaluated savings are sub-additive and non-negative.",
+    "DESIGN.md section 4, C03")
+add("C06",
+    "Hypothesis PBT: algebraic identities vs fresh cost instances, twin implementations vs definitional values, inequalities under an error model",
+    "Generated data, admissible 3- and 4-point cuts, four costs (incl. a user-defined L1 cost) and generated fixed parameters; "
+    "ChangeScore/Saving/LocalAnomalyScore are compared with their defining cost differences, CUSUM^2 and L2Saving with their "
+    "cost-based twins and with long-double definitional values, plus non-negativity, C_opt<=C_theta and the split inequality; "
+    "converters pass scores through by identity. Bounded exploration (n<=80).",
+    "Trusted: cost values (decided by C01); inequalities asserted only where slice variances exceed 1e-8 x scale^2.",
+    "DESIGN.md section 4, C06")
+
 NOT_BUILT_REASON = "check not built yet in this round (designed in DESIGN.md section 4; no claim is made)"
 
 
